@@ -5,7 +5,7 @@ use crate::engine::{GenPart, Property, Stats, Tier};
 use proptest::prelude::*;
 
 fn strategy(t: Tier) -> BoxedStrategy<SendCase> {
-    send_case(Knobs { with_exts: false, max_sends: 2, max_conts: t.pick(14, 24), tail_min: 7, handmade_pct: 40, tiny_bias: true })
+    send_case(Knobs { with_exts: true, max_sends: 2, max_conts: t.pick(14, 24), tail_min: 7, handmade_pct: 40, tiny_bias: true })
 }
 
 fn check(c: &SendCase, st: &mut Stats) -> Result<(), String> {
